@@ -25,8 +25,9 @@ def flip(hexframe, bits):
 
 class C04(PropBase):
     id = "C04"
-    lean_modules = ["SqModel.Props.C04"]
-    extractors = ["crc"]
+    corr_fields = []
+    lean_modules = ["SqModel.Props.C04", "SqModel.Proofs.BridgeBits"]
+    extractors = ["trans_bits", "crc"]
     rule = ("valid DF11/17/18 squitters x error patterns confined to bits 6..n: all single-bit, all double-bit (quick: 3 "
             "squitters, thorough: 40), random bursts of <= 24 bits and random heavy patterns; each corrupted frame asked of "
             "get_message and fed at a random point of a history of valid frames, table compared with the history without it. "
